@@ -203,7 +203,7 @@ func (runInfo *runInfoStruct) runVarStmt(stmt *ast.VarStmt) {
 		if env, ok := runInfo.rv.Interface().(*env.Env); ok {
 			rvs[i] = reflect.ValueOf(env.DeepCopy())
 		} else {
-			rvs[i] = runInfo.rv
+			rvs[i] = unalias(runInfo.rv)
 		}
 	}
 
@@ -216,7 +216,7 @@ func (runInfo *runInfoStruct) runVarStmt(stmt *ast.VarStmt) {
 		if (value.Kind() == reflect.Slice || value.Kind() == reflect.Array) && value.Len() > 0 {
 			// value is slice/array, add each value to left side names
 			for i := 0; i < value.Len() && i < len(stmt.Names); i++ {
-				runInfo.env.DefineValue(stmt.Names[i], value.Index(i))
+				runInfo.env.DefineValue(stmt.Names[i], unalias(value.Index(i)))
 			}
 			// return last value of slice/array
 			runInfo.rv = value.Index(value.Len() - 1)
@@ -251,7 +251,7 @@ func (runInfo *runInfoStruct) runLetsStmt(stmt *ast.LetsStmt) {
 		if env, ok := runInfo.rv.Interface().(*env.Env); ok {
 			rvs[i] = reflect.ValueOf(env.DeepCopy())
 		} else {
-			rvs[i] = runInfo.rv
+			rvs[i] = unalias(runInfo.rv)
 		}
 	}
 
@@ -264,7 +264,7 @@ func (runInfo *runInfoStruct) runLetsStmt(stmt *ast.LetsStmt) {
 		if (value.Kind() == reflect.Slice || value.Kind() == reflect.Array) && value.Len() > 0 {
 			// value is slice/array, add each value to left side expression
 			for i := 0; i < value.Len() && i < len(stmt.LHSS); i++ {
-				runInfo.rv = value.Index(i)
+				runInfo.rv = unalias(value.Index(i))
 				runInfo.expr = stmt.LHSS[i]
 				runInfo.invokeLetExpr()
 				if runInfo.err != nil {
@@ -507,7 +507,7 @@ func (runInfo *runInfoStruct) runForSliceStmt(stmt *ast.ForStmt, value reflect.V
 		default:
 		}
 
-		iv := value.Index(i)
+		iv := unalias(value.Index(i))
 		if iv.Kind() == reflect.Interface && !iv.IsNil() {
 			iv = iv.Elem()
 		}
